@@ -305,6 +305,17 @@ func (m *passivationManager) run() {
 		}
 
 		if wait <= 0 {
+			// an attempt that is refused (the system is stopping, the actor is
+			// suspended, ...) leaves the entry due, so this branch can be taken
+			// again and again without ever reaching the select below: honour a
+			// stop request here as well, otherwise Stop waits for done forever.
+			select {
+			case <-m.stop:
+				stopTimer(timer)
+				close(m.done)
+				return
+			default:
+			}
 			m.trigger(entry)
 			continue
 		}
@@ -348,6 +359,14 @@ func (m *passivationManager) nextEntry() (*passivationEntry, time.Duration) {
 
 func (m *passivationManager) trigger(expected *passivationEntry) {
 	for {
+		// a refused attempt leaves the entry due and is retried right away:
+		// give way to a stop request, the run loop acts on it.
+		select {
+		case <-m.stop:
+			return
+		default:
+		}
+
 		m.mu.Lock()
 		if len(m.queue) == 0 {
 			m.mu.Unlock()
